@@ -39,3 +39,14 @@ Theorem C04_max_reset_equiv : forall (F : Type) (O : Ops F) (s s1 s0 : @Max F) (
   max_order_ok O xs -> Proofs.WF.wf_max s -> max_reset O s = Ok s1 -> max_new O (max_period s) = Ok s0 ->
   max_outs O s1 xs = max_outs O s0 xs.
 Proof. exact (@max_reset_equiv). Qed.
+
+(* binary64: for continuations free of NaN and -0.0 a just-reset Minimum / Maximum and a fresh one return bit-identical outputs *)
+From TA Require Import FloatInst Proofs.FloatOrder.
+Theorem C04_min_reset_equiv_binary64 : forall (s s1 s0 : @Min PrimFloat.float) (xs : list PrimFloat.float),
+  Forall okF xs -> Proofs.WF.wf_min s -> min_reset FOps s = Ok s1 -> min_new FOps (min_period s) = Ok s0 ->
+  min_outs FOps s1 xs = min_outs FOps s0 xs.
+Proof. intros s s1 s0 xs H. apply min_reset_equiv. exists okF. split; [exact float_order_min|exact H]. Qed.
+Theorem C04_max_reset_equiv_binary64 : forall (s s1 s0 : @Max PrimFloat.float) (xs : list PrimFloat.float),
+  Forall okF xs -> Proofs.WF.wf_max s -> max_reset FOps s = Ok s1 -> max_new FOps (max_period s) = Ok s0 ->
+  max_outs FOps s1 xs = max_outs FOps s0 xs.
+Proof. intros s s1 s0 xs H. apply max_reset_equiv. exists okF. split; [exact float_order_max|exact H]. Qed.
